@@ -204,6 +204,25 @@ def run(chk, ctx) -> None:
         chk.ob('C04.hand_classes', ci.name, got == HAND_CLASSES[ci.name], ci.loc,
                '(lookup, low, card_count, board_card_count, hole_card_count) resolved through the MRO',
                got=got, want=HAND_CLASSES[ci.name])
+    # the table above is read off the class bodies: nothing may rewrite class attributes when a class is created or later
+    dyn = []
+    for mod in ('hands', 'lookups'):
+        mi = ctx.prog.module(mod)
+        for n in ast.walk(mi.tree):
+            if isinstance(n, ast.FunctionDef) and n.name in ('__init_subclass__', '__set_name__', '__class_getitem__', '__prepare__'):
+                dyn.append((mod, n, f'{n.name} hook'))
+            if isinstance(n, ast.ClassDef) and any(k.arg == 'metaclass' for k in n.keywords):
+                dyn.append((mod, n, 'metaclass'))
+            if isinstance(n, ast.Call) and isinstance(n.func, ast.Name) and n.func.id in ('setattr', 'delattr') and n.args \
+                    and isinstance(n.args[0], ast.Name) and n.args[0].id in ('cls', 'hand_type', 'klass', 'subclass'):
+                dyn.append((mod, n, 'setattr on a class'))
+            tg = n.targets if isinstance(n, ast.Assign) else [n.target] if isinstance(n, (ast.AugAssign, ast.AnnAssign)) else []
+            for t in tg:
+                if isinstance(t, ast.Attribute) and isinstance(t.value, ast.Name) and (t.value.id == 'cls' or t.value.id in ctx.prog.classes):
+                    dyn.append((mod, n, 'assignment to a class attribute'))
+    chk.ob('C04.hand_classes', 'hands/lookups:static_tables', not dyn, f'pokerkit/{dyn[0][0]}.py:{dyn[0][1].lineno}' if dyn else 'pokerkit/hands.py',
+           'the attributes of a hand class (lookup, low, counts) are the ones its class bodies declare: no hook, metaclass or assignment rewrites them',
+           got=[f'{m}.py:{n.lineno}: {w}' for m, n, w in dyn[:3]])
     chk.floor('C04.hand_classes', 11)
     _operators(chk, ctx)
     _validity(chk, ctx)
